@@ -96,4 +96,14 @@ CHECKS = {
         "real": ["two complete nodes (config_factory), async-raft leader on the first, FileStore follower path driven through the RaftStorage trait on the second"],
         "stub": STUB + ["async-raft's replication to the second node is played by the harness (it calls the RaftStorage methods async-raft calls)"],
     },
+    "C06": {
+        "level": "exploration",
+        "quick": {"runs": 1600, "wall_s": 150},
+        "thorough": {"runs": 40000, "wall_s": 1800},
+        "rule": "3 complete nodes formed by the product's own sequence (node 1 auto-init, nodes 2 and 3 auto-join over the simulated transport, membership {1,2,3} required on all before the workload); seeded script of config publishes (unique contents) and removes on 4 keys addressed to arbitrary nodes through ConfigRoute (what the HTTP and gRPC handlers call), issued as concurrent client tasks with recorded invoke/return event numbers, interleaved with kill -9 + restart of any node or of the current leader, isolation of a node or of the leader, one-way cuts, heal, and lossy / duplicating / slow network modes, never more than a minority down or cut off; 70 % of the runs start with a forced leader change; then all faults stop. Oracles: (liveness) a probe write succeeds within 60 simulated s; (convergence) within 60 s all nodes serve the same (content, md5) and the same history for all 30 keys; (never lost) every publish answered with success is in the committed history of its key; (order) real-time order of acknowledged publishes agrees with the history; (final value) the final value is that of an operation not overwritten in real time by a later acknowledged one; (direct) no success from a node that was cut off from both others for the whole call. non-trivial = at least 5 client operations; distinct = distinct event-log hash",
+        "probes": ["acks_by_formation_term_leader", "ack_while_cut_off", "entry_skipped_at_leader_change", "conflicting_suffix_never_repaired"],
+        "assumptions": ["SIGSTOP is approximated by isolation (a stalled node's timers still run)", "compaction is disabled in these runs (snapshot threshold 10000): see C08", "runs in which one of the three recorded root causes (known_findings.jsonl) is detected by its signature report it as a finding and do not evaluate the consequences; all other runs evaluate every clause", "clients call ConfigRoute directly (HTTP / gRPC framing absent)"],
+        "real": ["three complete nodes (config_factory), async-raft-ext 0.6.3 (elections, replication, membership change), FileStore, ConfigRoute + RaftRouteRequestHandler + handle_route, InvokerHandler dispatch"],
+        "stub": STUB + ["transport: RaftClusterRequestSender::send_request -> simulated network -> target InvokerHandler::handle (tonic/h2/TCP absent; 20-line prelude of RequestServerImpl::request re-implemented)"],
+    },
 }
